@@ -448,6 +448,8 @@ class C05(Prop):
                 s3 = execute()
                 if (s3[4], [type(e) for e in s3[5]]) == (deadlock2, [type(e) for e in raised2]):
                     s, stores, glog, rets, deadlock, raised, pre_obs = s2, stores2, glog2, rets2, deadlock2, raised2, pre_obs2
+                elif (s3[4], [type(e) for e in s3[5]]) == (deadlock, [type(e) for e in raised]):
+                    pass            # two of three runs agree with the first one: keep it
                 else:
                     from ..core import Infra
                     raise Infra(f"scheduler run not reproducible for {base}")
